@@ -15,6 +15,7 @@ mod c05;
 mod c07;
 mod c12;
 mod c15;
+mod c10;
 
 fn main() {
     common::install_panic_hook();
@@ -37,6 +38,7 @@ fn main() {
         "foci" => c07::run(&args),
         "masks" | "masks-child" => c12::run(&args),
         "holo" => c15::run(&args),
+        "parallel" | "parallel-child" => c10::run(&args),
         s => {
             eprintln!("unknown stream {s}");
             std::process::exit(2);
